@@ -1,6 +1,7 @@
 package main
 
 import (
+	"bytes"
 	"fmt"
 	"strings"
 )
@@ -226,6 +227,34 @@ func init() {
 			return &HistCfg{Prop: "C19", Cases: tierN(ctx, 120, 1200), MinSteps: 6, MaxSteps: 18, FreshPct: 5,
 				W:       Weights{"damage": 30, "write": 10, "add-all": 8, "commit": 10, "branch": 3, "switch": 2, "reset": 2, "config": 2, "branch-rename": 1},
 				Oracles: []HistOracle{orC19}, NoDerive: true}
-		}, Theorems: []string{"C19.get_crash_iff", "C19.get_returns_requested", "C19.parse_ne_undefined", "C19.decodeEntries_bounded", "C19.lookups_never_crash"},
+		},
+		// no-wrong-data for the tree reader: whatever `walkTree` returns for a (damaged) tree stored under its own
+		// name, every leaf it reports — name and id — must stand in the file as `name NUL id` (a reader that pads a
+		// cut-off id with zeros, or invents a name, serves data that is not there)
+		Oracle: func(c Case, step int, line string, impl string) *Finding {
+			if !strings.HasPrefix(line, "tree.walk ") || !strings.HasPrefix(impl, "ok ") || step == 0 || !strings.HasPrefix(c.Lines[step-1], "st.put ") {
+				return nil
+			}
+			f := strings.Fields(c.Lines[step-1])
+			if len(f) != 3 || "tree.walk "+f[1] != line {
+				return nil
+			}
+			content := unhx(f[2])
+			for _, n := range strings.Split(strings.TrimPrefix(impl, "ok "), ";") {
+				if !strings.HasSuffix(n, "{}") {
+					continue
+				}
+				ni := strings.SplitN(strings.TrimSuffix(n, "{}"), "/", 2)
+				if len(ni) != 2 {
+					continue
+				}
+				want := append(append(unhx(ni[0]), 0), unhx(ni[1])...)
+				if !bytes.Contains(content, want) {
+					return &Finding{Kind: "spec-violation", Clause: "no-wrong-object", Detail: fmt.Sprintf("the tree reader reports entry %q with id %s, which is not in the stored tree", unhx(ni[0]), ni[1])}
+				}
+			}
+			return nil
+		},
+		Theorems: []string{"C19.get_crash_iff", "C19.get_returns_requested", "C19.parse_ne_undefined", "C19.decodeEntries_bounded", "C19.lookups_never_crash"},
 		Rule: "valid files produced for the test (objects, trees, commits, index, HEAD, branch files, config, reflog) and every thinned truncation, random single-byte deletions and substitutions (0x00 0x0a 0x20 0x2f 0xff digits, +-1), swapped and self-referential object files, header corner cases; each decoder is called in-process under recover and must answer ok/err exactly like the model"}
 }
